@@ -293,6 +293,18 @@ func ruleGRDkeep(w *World, r *Report) {
 			efP = p
 		}
 	}
+	if kP == nil || efP == nil {
+		// by position, whatever they are called: the int parameters of the layer search are (k, level, efSearch)
+		var ints []*ssa.Parameter
+		for _, p := range fn.Params[1:] {
+			if basicKind(p.Type()) == types.Int {
+				ints = append(ints, p)
+			}
+		}
+		if len(ints) == 3 {
+			kP, efP = ints[0], ints[2]
+		}
+	}
 	okEf := false
 	if kP != nil && efP != nil {
 		for _, b := range fn.Blocks {
@@ -326,6 +338,32 @@ func ruleGRDkeep(w *World, r *Report) {
 							}
 						}
 					}
+				}
+			}
+		}
+	}
+	if !okEf && kP != nil && efP != nil {
+		// the same written with the builtin: ef := max(efSearch, k)
+		for _, b := range fn.Blocks {
+			for _, in := range b.Instrs {
+				c, ok := in.(*ssa.Call)
+				if !ok {
+					continue
+				}
+				if bi, isB := c.Call.Value.(*ssa.Builtin); !isB || bi.Name() != "max" {
+					continue
+				}
+				hasK, hasEf := false, false
+				for _, a := range c.Call.Args {
+					if capturedParam(a) == kP {
+						hasK = true
+					}
+					if capturedParam(a) == efP {
+						hasEf = true
+					}
+				}
+				if hasK && hasEf {
+					okEf = true
 				}
 			}
 		}
